@@ -87,14 +87,14 @@ PLAN = {
                             'chunk of the lossy decoder on all inputs of length <= 4 and for the 256-entry width table (loop-free / fully symbolic); replace_range\'s boundary '
                             'assertions are proved by Verus to put both ends of the removed byte range on char boundaries for Included/Excluded/Unbounded ends. from_utf16_in, '
                             'retain, pop and replace_range as whole operations exceeded the CBMC budget and are not decided.'),
-    'C15': dict(v=['drainfilter', 'intoiter', 'rawvec', 'dedup', 'vecops'], level='model_checking',
+    'C15': dict(v=['drainfilter', 'intoiter', 'rawvec', 'dedup', 'vecops', 'boxops'], level='model_checking',
                 k_quick=['k_drop_vec_ops', 'k_drop_iters', 'k_drop_forgotten_iterators', 'k_drop_no_destructors', 'k_drop_dedup', 'k_drop_zst'],
                 k_thorough=['k_drop_dedup_retain', 'k_box_drop_once', 'k_box_slices_arrays'],
                 technique='bounded model checking (Kani) with a per-element drop ledger on the real Vec/Box code',
                 explanation='BOUNDED: vectors of <= 3 elements whose Drop bumps a per-id counter; pop/remove/swap_remove/truncate/drain/into_iter (partially consumed)/dedup/retain/'
                             'forgotten Drain and DrainFilter/zero-sized elements/into_bump_slice/arena reset. Non-panicking paths only. IntoIter over zero-sized elements reaches a '
                             'construct Kani cannot model (arithmetic on dangling pointers) and is not exercised.'),
-    'C17': dict(v=[], level='model_checking',
+    'C17': dict(v=['boxops'], level='model_checking',
                 k_quick=['k_box_roundtrips', 'k_box_drop_once', 'k_box_slices_arrays', 'k_box_from_vec_then_alloc', 'k_box_zst_slice_to_array'],
                 k_thorough=['k_box_downcast', 'k_vec_shrink_moves'],
                 technique='bounded model checking (Kani) of the real Box code for fixed type instances with symbolic values',
